@@ -16,6 +16,9 @@ import oracle
 
 warnings.simplefilter("ignore")
 
+MAX_SHRINKS = 3      # violations that are shrunk to a minimal failing input (the others keep their generated input)
+MAX_NEIGHBOURHOODS = 6   # stale-model inputs whose neighbourhood is searched for a failing input
+MAX_REPORTS = 40     # VIOLATION lines / replay files per run; further violations are counted in the evidence only
 F32_BOUND = 2 ** 24
 F64_BOUND = 2 ** 53
 
@@ -131,8 +134,10 @@ def run_real(case):
             if isinstance(r, cola.ops.LinearOperator):
                 out["res"] = {"kind": "op", "rows": int(r.shape[0]), "cols": int(r.shape[1]),
                               "value": build.exact_mat(np.asarray(r.to_dense())), "skel": skel(r), "anns": ann_list(r)}
+                out["resdt"] = build.dtname(r.dtype)
             else:
                 r = np.asarray(r)
+                out["resdt"] = build.dtname(r.dtype)
                 if r.ndim == 0:
                     out["res"] = {"kind": "scalar", "value": build.exact_mat(r.reshape(1))[0]}
                 elif r.ndim == 1:
@@ -180,6 +185,10 @@ def case_clauses(case, ans):
     if case["call"] == "getitem":
         if len(case["ids"]) == 2 and all("a" in j for j in case["ids"]):
             cl.append("getitem-array-pair-outer")
+        if len(case["ids"]) == 2 and all("l" in j for j in case["ids"]):
+            l0, l1 = case["ids"][0]["l"], case["ids"][1]["l"]
+            if len(l0) != len(l1) or not l0:      # Lean clause `EqualLenLists` (same positive length) violated
+                cl.append("getitem-list-zip")
         dims = [ans.get("rows", 0), ans.get("cols", 0)]
         for pos, j in enumerate(case["ids"]):
             if "a" in j and dims[pos] > 0:
@@ -193,30 +202,36 @@ def observations(case, ans, real):
     """-> (real_obs, code_obs, spec_obs): dicts; real must equal code on all keys of code, and
     code must equal spec on all keys of spec"""
     call = case["call"]
+    # dtype: real (cola object / returned array) = code model (`Op.dtype`, `Op.mmDtype`: what the constructors and the
+    # products compute) = specification (`Op.dtypeSpec`, `Op.mmDtypeSpec`: join of the leaf dtypes and the operand's)
     if call in ("matmat", "rmatmat", "dense"):
-        want_dt = promote(ans["dtype"], case["xdt"]) if "xdt" in case else ans["dtype"]
-        code = {"v": ans["code"], "shape": [ans["rows"], ans["cols"]], "dtype": ans["dtype"], "resdt": want_dt}
+        code = {"v": ans["code"], "shape": [ans["rows"], ans["cols"]], "dtype": ans["dtype"], "resdt": ans["resdt"]}
         if case.get("vec"):
             code["ndim"] = 1
-        spec = {"v": ans["spec"], "shape": code["shape"], "resdt": want_dt}
+        spec = {"v": ans["spec"], "shape": code["shape"], "dtype": ans["dtypeSpec"], "resdt": ans["resdtSpec"]}
+        if "xdt" in case:
+            # NumPy's own promotion table as a third opinion on the model of promotion (DType.promote)
+            np_dt = promote(ans["dtype"], case["xdt"])
+            if np_dt != ans["resdt"]:
+                spec["resdt"] = np_dt
     elif call == "tower":
         code = {"v": ans["code"], "rshape": [ans["rrows"], ans["rcols"]], "rdtype": ans["rdtype"],
-                "ranns": ans["ranns"], "skel": ans["skel"]}
-        spec = {"v": ans["spec"], "rshape": code["rshape"]}
+                "ranns": ans["ranns"], "skel": ans["skel"], "dtype": ans["dtype"]}
+        spec = {"v": ans["spec"], "rshape": code["rshape"], "rdtype": ans["rdtypeSpec"], "dtype": ans["dtypeSpec"]}
     elif call == "getitem":
         c, sp = ans["code"], ans["spec"]
         if c["kind"] == "err":
             code = {"err": c["value"]}
         else:
-            code = {"res": c}
+            code = {"res": c, "resdt": ans["resdt"], "dtype": ans["dtype"]}
         if sp["kind"] == "err":
             spec = {"err": sp["value"]}
         else:
-            spec = {"res": {k: sp[k] for k in ("kind", "value", "rows", "cols") if k in sp}}
+            spec = {"res": {k: sp[k] for k in ("kind", "value", "rows", "cols") if k in sp}, "resdt": ans["resdtSpec"]}
     elif call == "info":
         code = {"shape": [ans["rows"], ans["cols"]], "dtype": ans["dtype"], "anns": ans["anns"], "skel": ans["skel"],
                 "anns_true": anns_true(ans["anns"], ans["den"])}
-        spec = {"shape": code["shape"], "anns_true": []}
+        spec = {"shape": code["shape"], "anns_true": [], "dtype": ans["dtypeSpec"]}
         if "anns" in real:
             real = dict(real)
             real["anns_true"] = anns_true(real["anns"], ans["den"])
@@ -308,6 +323,8 @@ def shrink_candidates(e):
                 out.append(["concat", e[1]] + kids[:i] + [s] + kids[i + 1:])
     elif t == "ann":
         out.append(e[2])
+        # the wrapper around each shrunk operand (the shrinker drops candidates whose declaration became false)
+        out += [["ann", e[1], s] for s in shrink_candidates(e[2])]
     elif t in ("dense", "tri"):
         m = e[-1]
         nz = [(i, j) for i, row in enumerate(m) for j, v in enumerate(row) if v != 0]
@@ -337,9 +354,94 @@ def shrink(case, still_fails, max_rounds=25):
     return cur
 
 
+# ------------------------------------------------------------------------------------------ neighbourhood
+def declarations_true(e, info):
+    """every `ann` node of e declares a property its operand really has (exact test on the model's `den`)"""
+    for s in gen.subexprs(e):
+        if s[0] == "ann":
+            a = info.get(common.canon(s[2]))
+            if a is None or "den" not in a:
+                return False
+            if anns_true([s[1]], a["den"]):
+                return False
+    return True
+
+
+def neighbours(e, G, k=16):
+    """variants of an operator expression with the same kind tree: fresh payloads of undeclared leaves, other leaf dtypes,
+    declarations dropped, declared leaves replaced by other matrices with the same (true) property, index selections replaced
+    by permuted ones.  Used when the real code disagrees with the code model but not (yet) with the specification."""
+    rng = G.rng
+    out = []
+    memo = {}
+
+    def vary(x, declared=False):
+        # equal sub-expressions are ONE shared object in the built operator (A.H @ A): vary them consistently
+        key = (common.canon(x), declared)
+        if key not in memo:
+            memo[key] = vary1(x, declared)
+        return memo[key]
+
+    def vary1(x, declared=False):
+        t = x[0]
+        r = rng.random()
+        if t == "dense" and not declared:
+            dt = x[1] if r < 0.5 else rng.choice(gen.DTYPES)
+            return ["dense", dt, x[2], x[3], G.mat(dt, x[2], x[3])]
+        if t == "diag" and not declared:
+            dt = x[1] if r < 0.5 else rng.choice(gen.DTYPES)
+            return ["diag", dt, G.vec(dt, len(x[2]))]
+        if t == "scalar" and not declared and r < 0.5:
+            return ["scalar", x[1], G.z(x[1]), x[3]]
+        if t in ("eye", "perm") and r < 0.3:
+            return [t, rng.choice(gen.DTYPES)] + x[2:]
+        if t == "ann":
+            if r < 0.25:
+                return vary(x[2])
+            y = x[2]
+            if y[0] == "dense" and y[2] == y[3] and x[1] in ("SelfAdjoint", "PSD") and r < 0.8:
+                dt = rng.choice(["c64", "c128", y[1]])
+                return ["ann", x[1], ["dense", dt, y[2], y[2], G.herm(dt, y[2]) if x[1] == "SelfAdjoint" else G.psd(dt, y[2])]]
+            return ["ann", x[1], vary(y, declared=True)]
+        if t in ("prod", "sum", "kron", "kronsum"):
+            return [t] + [vary(y, declared) for y in x[1:]]
+        if t == "bdiag":
+            return ["bdiag", [vary(y, declared) for y in x[1]], x[2]]
+        if t == "concat":
+            return ["concat", x[1]] + [vary(y, declared) for y in x[2:]]
+        if t in ("T", "H", "generic"):
+            return [t, vary(x[1], declared)]
+        if t == "slice":
+            a, b = gen.shape_of(x[1])
+
+            def sel(ix, n):
+                return [int(v) for v in (np.arange(n)[np.array(ix["a"], dtype=np.int64)] if "a" in ix else np.arange(n)[slice(*ix["s"])])]
+            i0, i1 = x[2], x[3]
+            if r < 0.5:
+                p0, p1 = sel(i0, a), sel(i1, b)
+                if rng.random() < 0.5:
+                    p1 = p1[::-1] if rng.random() < 0.5 else rng.sample(p1, len(p1))
+                else:
+                    p0 = p0[::-1] if rng.random() < 0.5 else rng.sample(p0, len(p0))
+                i0, i1 = {"a": p0}, {"a": p1}
+            return ["slice", vary(x[1], declared), i0, i1]
+        return x
+    seen = {common.canon(e)}
+    for _ in range(4 * k):
+        memo.clear()
+        v = vary(e)
+        key = common.canon(v)
+        if key not in seen:
+            seen.add(key)
+            out.append(v)
+        if len(out) >= k:
+            break
+    return out
+
+
 # ------------------------------------------------------------------------------------------ engine
 class Engine:
-    def __init__(self, ctx, G, calls):
+    def __init__(self, ctx, G, calls, provisional=None):
         self.ctx = ctx
         self.G = G
         self.calls = calls
@@ -351,7 +453,11 @@ class Engine:
         self.distinct = set()
         self.samples = []
         self.nid = 0
+        self.in_search = False
         self.known = common.known_clauses(ctx.prop)
+        # findings of this run's property module that are not yet decided (PROVISIONAL_KNOWN of props/<id>.py)
+        for k, v in (provisional or {}).items():
+            self.known.setdefault(k, {"what": v if isinstance(v, str) else v.get("what", ""), "provisional": True})
 
     def cases_for_tree(self, e, info):
         """expand one tree into cases on every node; info: id->driver 'info' answers by canon(expr)"""
@@ -432,21 +538,35 @@ class Engine:
         forms.append([rlist(r, k), rlist(c, k)])
         forms.append([rint(r), rlist(c, k)])
         forms.append([rlist(r, k), rint(c)])
+        # two lists of DIFFERENT lengths (NumPy broadcasts a length-1 list and raises IndexError otherwise) and empty lists
+        k2 = rng.choice([x for x in (0, 1, 1, 2, 3, 4) if x != k])
+        forms.append([rlist(r, k), rlist(c, k2)] if rng.random() < 0.5 else [rlist(r, k2), rlist(c, k)])
+        if rng.random() < 0.1:
+            forms.append([{"l": []}, {"l": []}])
         if rng.random() < 0.15:   # out-of-range integer
             forms.append([{"i": rng.choice([r, -r - 1])}])
             forms.append([rix(r), {"i": rng.choice([c, -c - 1])}])
         pick = rng.sample(forms, min(len(forms), 4))
         out = [{"call": "getitem", "op": s, "ids": f} for f in pick]
-        # products with the lazy slice ("complex operands multiplied into a slice"): A[ix0, ix1] @ X and X @ A[ix0, ix1]
-        if rng.random() < 0.5:
+        # products with the lazy slice ("complex operands multiplied into a slice"): A[ix0, ix1] @ X and X @ A[ix0, ix1],
+        # from BOTH sides with an operand of EVERY dtype (the scatter buffers of Sliced._matmat / _rmatmat must take the
+        # promoted dtype of operator and operand), 2-D and (one side, at random) 1-D
+        if rng.random() < 0.4:
             i0, i1 = rix(r), rix(c)
             sl = ["slice", s, i0, i1]
             nr = len(i0["a"]) if "a" in i0 else len(range(*slice(*i0["s"]).indices(r)))
             nc = len(i1["a"]) if "a" in i1 else len(range(*slice(*i1["s"]).indices(c)))
-            dt, X = G.operand(nc, dt=rng.choice(["c64", "c128", "f64"]))
-            out.append({"call": "matmat", "op": sl, "x": X, "xdt": dt})
-            dt, X = G.operand(nr, dt=rng.choice(["c64", "c128", "f32"]))
-            out.append({"call": "rmatmat", "op": sl, "x": [list(q) for q in zip(*X)], "xdt": dt})
+            vside = rng.choice(["matmat", "rmatmat", None])
+            for xdt in gen.DTYPES:
+                dt, X = G.operand(nc, dt=xdt, maxcols=2)
+                out.append({"call": "matmat", "op": sl, "x": X, "xdt": dt})
+                dt, X = G.operand(nr, dt=xdt, maxcols=2)
+                out.append({"call": "rmatmat", "op": sl, "x": [list(q) for q in zip(*X)], "xdt": dt})
+            if vside and nr > 0 and nc > 0:
+                xdt = rng.choice(["c64", "c128"])
+                dt, X = G.operand(nc if vside == "matmat" else nr, dt=xdt, maxcols=1)
+                X = X if vside == "matmat" else [list(q) for q in zip(*X)]
+                out.append({"call": vside, "op": sl, "x": X, "xdt": dt, "vec": True})
         return out
 
     def info_pass(self, trees):
@@ -511,17 +631,65 @@ class Engine:
                 for cl in det:
                     common.known_finding(ctx, cl, self.known[cl]["what"])
         elif st == "violation":
-            small = self.shrink_case(c)
+            # every violation is reported with its concrete failing input; only the first few are also shrunk (each
+            # shrinking round re-runs the driver), and after MAX_REPORTS reports the rest are only counted
+            self.stats["violations_seen"] += 1
+            if self.stats["violations_seen"] > MAX_REPORTS:
+                return
+            if self.stats["violations_seen"] <= MAX_SHRINKS:
+                small = self.shrink_case(c)
+            else:
+                small = {"case": c, "ans": a, "real": real, "detail": det}
             common.violation(ctx, {"case": small["case"], "expected_spec": small.get("ans", {}).get("spec"), "real": small["real"],
                                    "detail": small["detail"], "original_case": c,
                                    "replay_cmd": f"./check {ctx.prop} quick --replay <this file>"})
         elif st == "stale-model":
-            common.violation(ctx, {"case": c, "model_code": a.get("code"), "spec": a.get("spec"), "real": real,
-                                   "broken": "correspondence stream of the code model (real agrees with the specification, not with the model)"},
-                             no_input=True)
+            # the real code left the code model without (on this input) contradicting the specification: search the
+            # neighbourhood of the input for one on which it does
+            self.stats["stale_seen"] += 1
+            found = None
+            if self.stats["stale_seen"] <= MAX_NEIGHBOURHOODS and not self.in_search:
+                found = self.neighbourhood(c)
+            if found is not None:
+                common.violation(ctx, {"case": found["case"], "expected_spec": found["ans"].get("spec"), "real": found["real"],
+                                       "detail": found["detail"], "found_near": c,
+                                       "why": "found in the neighbourhood of an input on which the real code disagrees with the code model",
+                                       "replay_cmd": f"./check {ctx.prop} quick --replay <this file>"})
+            elif self.stats["stale_seen"] <= MAX_REPORTS:
+                common.violation(ctx, {"case": c, "model_code": a.get("code"), "spec": a.get("spec"), "real": real,
+                                       "broken": "correspondence stream of the code model (real agrees with the specification, not with the model)"},
+                                 no_input=True)
         elif st == "driver-error":
             self.stats["driver-error"] += 0
             ctx.notes.append(f"driver error on case {c.get('id')}: {det}")
+
+    def neighbourhood(self, c):
+        """-> first neighbour of case c classified `violation` (dict case/ans/real/detail), or None"""
+        self.in_search = True
+        try:
+            cands = neighbours(c["op"], self.G)
+            if not cands:
+                return None
+            info = self.info_pass(cands)
+            full = []
+            for x in cands:
+                a = info.get(common.canon(x))
+                if a is None or "error" in a or not a.get("wf", True) or not declarations_true(x, info):
+                    continue
+                for m in self.make_cases(x, a, c["call"])[:2]:
+                    for kk in ("tower",):
+                        if kk in c:
+                            m[kk] = c[kk]
+                    full.append(m)
+            for (cc, a, real, st, det) in self.evaluate(full):
+                if st == "violation":
+                    return {"case": cc, "ans": a, "real": real, "detail": det}
+            return None
+        except Exception as ex:  # noqa: BLE001
+            self.ctx.notes.append(f"neighbourhood search failed: {ex}")
+            return None
+        finally:
+            self.in_search = False
 
     def shrink_case(self, c):
         best = {"case": c}
@@ -532,7 +700,7 @@ class Engine:
             full = []
             for x in cands:
                 a = info.get(common.canon(x["op"]))
-                if a is None or "error" in a or not a.get("wf", True):
+                if a is None or "error" in a or not a.get("wf", True) or not declarations_true(x["op"], info):
                     continue
                 ms = self.make_cases(x["op"], a, x["call"])
                 for m in ms:
